@@ -272,7 +272,7 @@ class OpNconOrders(e1.Op):
                 negative = negative or bool(np.any(S < 0))
                 operands.extend([S, [L(a_), L(b_)]])
         outl = sorted({v for tt in ar["tensors"] for v in tt["inds"] if v <= 0}, reverse=True)
-        dense = np.einsum(*operands, [L(v) for v in outl])
+        dense = np.einsum(*operands, [L(v) for v in outl], optimize="greedy")
         if negative:
             w.stats["negative_signs_seen"] += 1
         out_axes = [ulegs[v] for v in outl]
